@@ -45,6 +45,8 @@ def configs(quick):
         # four terminals with generic currents: the order in which terminal currents are summed must be fixed
         dict(name="four_terminals", dev="cross4", currents4=[5.1, -2.3, -3.7, 0.9], adaptive=True, T=0.12),
     ]
+    # a screened run started from a seed solution (the seed object is used twice in the worker)
+    c.append(dict(name="screening_seeded", dev="ring", lam=0.5, screening=True, seeded=True, adaptive=False, T=0.04))
     if not quick:
         c += [dict(name="timedep_current_adaptive", dev="bar_hole", timedep_current=True, adaptive=True, T=0.2),
               dict(name="screening_fixed", dev="union", lam=0.5, screening=True, adaptive=False, T=0.06),
@@ -95,6 +97,15 @@ def run(ctx, stop_first=False):
         ctx.count(f"threads={t}")
         ctx.count(f"location:{loc[0]}")
     for name, rs in by_cfg.items():
+        # within each process: the repetition with the same objects equals the first run
+        for t, l, r in rs:
+            if r.get("repeat_in_process") != r.get("first_in_process"):
+                rp = dict(config=name, threads=t, location=l)
+                ctx.fail("not-bit-identical:same-process", f"{name} ({t} threads): repeating the run in the same process with the same input objects gives different results", rp)
+                first = first or dict(key="not-bit-identical:same-process", what="repeat differs", **rp)
+                if stop_first:
+                    return first
+                break
         t0, l0, ref = rs[0]
         fref = flat({k: v for k, v in ref.items() if k != "threads"})
         for t, l, r in rs[1:]:
